@@ -52,6 +52,21 @@ def fold_consts(P, expr, fn, cls=None, locals_=()):
                     r = self._try(node)
                     if r is not None:
                         return r
+                # self.ALIAS / cls.ALIAS where the class binds ALIAS to a dotted name from outside the repository: the dotted name itself
+                if isinstance(node.value, ast.Name) and node.value.id in ("self", "cls") and cls is not None:
+                    r_ = cls.lookup(node.attr)
+                    if r_ is not None and r_[1] == "assign" and isinstance(r_[2], (ast.Name, ast.Attribute)):
+                        src = r_[2]
+                        b2 = src
+                        while isinstance(b2, ast.Attribute):
+                            b2 = b2.value
+                        if isinstance(b2, ast.Name) and b2.id not in ("self", "cls"):
+                            try:
+                                from .model import ExtRef
+                                if isinstance(P.const_eval(src, r_[0].module, cls=r_[0]), ExtRef):
+                                    return ast.copy_location(copy.deepcopy(src), node)
+                            except (Unknown, AnalysisError, RecursionError):
+                                pass
             self.generic_visit(node)
             return node
 
